@@ -492,6 +492,42 @@ class Canon:
                 return self.c(xs.args[0]), const_int(r.args[0])
         return self.c(xs), 0
 
+    def from_fn_array(self, e):
+        import re as _re
+        from . import ctext as CT
+        from .rules_i import returns as _returns
+        m = _re.match(r'^\[.*; (\d+)\]$', (e.ty or '').strip())
+        if m is None and e.site:
+            t_ = self.fn.blocks[e.site[0]]['term']
+            if t_.get('dest') is not None:
+                m = _re.match(r'^\[.*; (\d+)\]$', (self.fn.local_ty(t_['dest']['l']) or '').strip())
+        cl = strip(e.args[0])
+        if m is None or not (cl.k == 'aggr' and isinstance(cl.c, dict) and cl.c.get('closure')) or int(m.group(1)) > 32:
+            return None
+        g = self.P.F.fns.get(cl.c['closure'])
+        if g is None or g.arg_count != 2:
+            return None
+        rr = _returns(g, self.P.F, True)
+        if len(rr) != 1:
+            return None
+        body = rr[0][1]
+        pn = g.local_name(2)
+        caps = [self.c(a) for a in cl.args]
+        out = []
+        for k_ in range(int(m.group(1))):
+            t = body
+            for ci_ in range(len(caps) - 1, -1, -1):
+                t = t.replace('$_1.%d' % ci_, caps[ci_])
+            t = _re.sub(r'\$%s\b' % _re.escape(pn), str(k_), t)
+            if '$_1' in t or '$_2' in t:
+                return None
+            try:
+                t = CT.show(CT.fold(CT.parse(t)))
+            except CT.ParseError:
+                return None
+            out.append(t)
+        return 'array{%s}' % ', '.join(out)
+
     def borrow_version(self, call):
         """memory version of the collection a slice iterator borrows, taken where `x.iter()` is called: the shared borrow
         lives as long as the iterator, so every element it yields is read in that version"""
@@ -863,6 +899,12 @@ class Canon:
             if ln == 'from' and len(e.args) == 1 and (e.ty or '').strip() in INTW and 'convert::From<' in (e.name or ''):
                 # uN::from(narrower integer) is the widening cast
                 return self.c(E('cast', 'IntToInt', [e.args[0]], ty=(e.ty or '').strip()))
+            if ln == 'from_fn' and 'array' in (e.name or '') and len(e.args) == 1:
+                # core::array::from_fn(|j| body) of type [T; N]: the literal array [body(0), .., body(N-1)] -- the closure's
+                # returned expression with its parameter replaced by each index and its captures by what was captured
+                r_ = self.from_fn_array(e)
+                if r_ is not None:
+                    return r_
             # unwrap(Some(x)) == x ; Option::as_ref is a view
             if ln in ('unwrap', 'expect') and e.args:
                 a0 = strip(e.args[0])
@@ -1003,6 +1045,12 @@ class Canon:
                     return '%s[%s]%s' % (self.c(base.args[0]), idx_, self.version(e))
                 if r_.k == 'aggr' and r_.name == 'RangeTo::RangeTo':
                     return '%s[%s]%s' % (self.c(base.args[0]), self.c(e.args[1]), self.version(e))
+            b0_ = strip(e.args[0])
+            if b0_.k == 'aggr' and b0_.name == 'array' and not (isinstance(e.c, dict) and e.c.get('reach')):
+                # element k of a literal array
+                kk_ = _ci(e.args[1]) if len(e.args) > 1 else (int(e.name) if (e.name or '').isdigit() else None)
+                if kk_ is not None and 0 <= kk_ < len(b0_.args):
+                    return self.c(b0_.args[kk_])
             bt_, own_ = self.c(e.args[0]), self.version(e)
             wv_ = ''
             if bt_.endswith('}') and '#{' in bt_:
